@@ -56,7 +56,7 @@ func operationUnmarshaler(raw json.RawMessage, resolvers entity.Resolvers) (dag.
 	case SetTitleOp:
 		op = &SetTitleOperation{}
 	default:
-		panic(fmt.Sprintf("unknown operation type %v", t.OperationType))
+		return nil, fmt.Errorf("unknown operation type %v", t.OperationType)
 	}
 
 	err := json.Unmarshal(raw, &op)
